@@ -138,6 +138,7 @@ CHECKS["C15"] = {
         ]},
         {"engine": "E", "proxy": ["plain"], "tests": [
             {"run": "TestVfC15Listeners", "quick": 96, "thorough": 12860, "shards_quick": 8, "shards_thorough": 16, "timeout_thorough": 3400},
+            {"run": "TestVfC15SlowStore", "quick": 4, "thorough": 160, "shards_quick": 4, "shards_thorough": 8, "timeout_thorough": 3400, "shrinktime": "40s"},
         ]},
     ],
     "assumptions": [
@@ -298,6 +299,7 @@ CHECKS["C03"] = {
             {"run": "TestVfC03WildcardUDP", "quick": 160, "thorough": 12000, "shards_quick": 4, "shards_thorough": 16, "timeout_thorough": 3400},
             {"run": "TestVfC03Pipelined", "quick": 160, "thorough": 6000, "shards_quick": 8, "shards_thorough": 16, "timeout_thorough": 3400},
             {"run": "TestVfC03StoreStall", "quick": 4, "thorough": 160, "shards_quick": 4, "shards_thorough": 8, "timeout_thorough": 3400, "shrinktime": "30s"},
+            {"run": "TestVfC03IdleThenSilent", "quick": 4, "thorough": 120, "shards_quick": 4, "shards_thorough": 8, "timeout_thorough": 3400, "shrinktime": "40s"},
         ]},
     ],
     "assumptions": ["well-formed fake replies carry the lower-cased question they were asked, as real servers do", "clients keep their transport open until the response or 9 s"],
@@ -329,6 +331,7 @@ CHECKS["C13"] = {
             {"run": "TestVfC13Framing", "quick": 480, "thorough": 85710, "shards_quick": 8, "shards_thorough": 16, "timeout_thorough": 3400},
             {"run": "TestVfC13CounterAfterRefusals", "quick": 24, "thorough": 800, "shards_quick": 8, "shards_thorough": 16, "timeout_thorough": 3000},
             {"run": "TestVfC13LongLived", "quick": 8, "thorough": 480, "shards_quick": 8, "shards_thorough": 16, "timeout_quick": 300, "timeout_thorough": 3400, "shrinktime": "60s"},
+            {"run": "TestVfC13StalledReader", "quick": 8, "thorough": 320, "shards_quick": 8, "shards_thorough": 16, "timeout_thorough": 3400, "shrinktime": "40s"},
             {"run": "TestVfC13SlowSegments", "quick": 16, "thorough": 320, "shards_quick": 8, "shards_thorough": 16, "timeout_quick": 300, "timeout_thorough": 3400, "shrinktime": "60s"},
         ]},
     ],
